@@ -330,7 +330,7 @@ func damage(c *hlib.Ctx, s *soup3) string {
 	if len(s.faces) == 0 {
 		return "none"
 	}
-	switch c.Rng.Intn(11) {
+	switch c.Rng.Intn(12) {
 	case 0: // open: remove faces
 		k := 1 + c.Rng.Intn(3)
 		for i := 0; i < k && len(s.faces) > 1; i++ {
@@ -432,6 +432,24 @@ func damage(c *hlib.Ctx, s *soup3) string {
 			s.faces = fs
 		}
 		return "open-star"
+	case 10: // a doubled fin: two coincident triangles on an existing edge (or a free pillow)
+		j := c.Rng.Intn(len(s.faces))
+		f := s.faces[j]
+		k := c.Rng.Intn(3)
+		n := len(s.coords)
+		s.coords = append(s.coords, model3d.XYZ(300+float64(n), 9, 9))
+		a, b := f[k], f[(k+1)%3]
+		if c.Rng.Intn(3) == 0 {
+			s.coords = append(s.coords, model3d.XYZ(300+float64(n), 11, 9), model3d.XYZ(300+float64(n), 9, 11))
+			a, b = n+1, n+2
+		}
+		s.faces = append(s.faces, [3]int{a, b, n})
+		if c.Rng.Intn(2) == 0 {
+			s.faces = append(s.faces, [3]int{b, a, n})
+		} else {
+			s.faces = append(s.faces, [3]int{a, b, n})
+		}
+		return "double-fin"
 	default:
 		return "none"
 	}
